@@ -180,6 +180,33 @@ pub fn gen_c17(ctx: &mut Ctx) {
         ctx.op("hll.eq 1 10".into());
         ctx.op("hll.count 10".into());
         ctx.op("hll.count 1".into());
+        // the very first add after construction, clear and reconstruction is a boundary hash
+        {
+            let h0 = *ctx.rng.pick(&[u64::MAX, 0u64, u64::MAX - 1, 1u64 << 63, (1u64 << b) - 1, u64::MAX >> 1]);
+            let h1 = ctx.rng.next();
+            ctx.op(format!("hll.new 13 {}", b));
+            ctx.op(format!("hll.addh 13 {}", h0));
+            ctx.op("hll.regs 13".into());
+            ctx.op("hll.empty 13".into());
+            ctx.op(format!("hll.addh 13 {}", h1));
+            ctx.op(format!("hll.addh 13 {}", h0));
+            ctx.op("hll.regs 13".into());
+            ctx.op("hll.clear 13".into());
+            ctx.op(format!("hll.addh 13 {}", h0));
+            ctx.op(format!("hll.addh 13 {}", h0));
+            ctx.op("hll.regs 13".into());
+            ctx.op("hll.count 13".into());
+            ctx.op("hll.rebuild 13 14".into());
+            ctx.op(format!("hll.addh 14 {}", u64::MAX));
+            ctx.op(format!("hll.addh 14 {}", h1));
+            ctx.op("hll.regs 14".into());
+            ctx.op(format!("hll.new 15 {}", b));
+            ctx.op(format!("hll.addh 15 {}", h1));
+            ctx.op(format!("hll.addh 15 {}", u64::MAX));
+            ctx.op(format!("hll.addh 15 {}", h0));
+            ctx.op("hll.regs 15".into());
+            ctx.op("hll.eq 14 15".into());
+        }
         if ctx.rng.chance(1, 4) {
             let bad = *ctx.rng.pick(&[0u64, 1, 3, 19, 20, 64]);
             ctx.op(format!("hll.new 7 {}", bad));
